@@ -156,33 +156,55 @@ def run(cx):
     body = branches['log']
     a = last_assign(body, res_var)
     cx.need(a is not None, 'hist_bins: log branch does not define the edges')
-    # replacement of a non-positive lower limit
-    rep = [st for st in body if isinstance(st, ast.If)]
-    okr = len(rep) == 1 and sym.norm(rep[0].test) == sym.norm('%s[0] <= 0' % rng) and not rep[0].orelse \
-        and sym.norm_block(rep[0].body) == sym.norm_block(ast.parse(
-            '%s = [min(1., %s[1]/1e5), %s[1]]' % (rng, rng, rng)).body)
-    fn.ob('REACH', 'a non-positive lower limit is replaced by a positive one (on a new list) before the logarithm', okr,
-          rep[0] if rep else a, detail='' if okr else 'replacement block: %s' % (norm_stmt(rep[0]) if rep else 'missing'),
-          key='log-lower')
-    logdef = [st for st in body if isinstance(st, ast.Assign) and isinstance(st.targets[0], ast.Name)
-              and st.targets[0].id == rng and st not in (rep[0].body if rep else [])]
-    okl = len(logdef) == 1 and sym.norm(logdef[0].value) == sym.norm('[np.log10(%s[0]), np.log10(%s[1])]' % (rng, rng)) \
-        and (not rep or logdef[0].lineno > rep[0].lineno)
-    fn.ob('REACH', 'the logarithm is taken of the (replaced) limits', okl, logdef[0] if logdef else a, key='log-limits')
-    exp = [st for st in body if isinstance(st, ast.Assign) and sym.norm(st.value) == sym.norm('10**%s' % res_var)]
-    lin = [st for st in body if isinstance(st, ast.Assign) and isinstance(st.targets[0], ast.Name)
-           and st.targets[0].id == res_var and st not in exp]
-    oke = len(exp) == 1 and len(lin) == 1 and exp[0].lineno > lin[0].lineno and a is exp[0]
-    grid = lin[0].value if lin else None
-    if not exp and len(lin) == 1 and isinstance(a.value, ast.BinOp) and isinstance(a.value.op, ast.Pow) \
-            and isinstance(a.value.left, ast.Constant) and a.value.left.value == 10 and a is lin[0]:
-        # one statement (the canonical spelling of grid-then-power under one name): edges = 10**grid
-        oke, grid = True, a.value.right
-    fn.ob('FORMULA', 'log edges are 10** of a uniform grid in log space', oke, exp[0] if exp else a, key='log-exp')
-    if lin:
-        spec_check(fn, 'FORMULA', 'log-space grid: n+1 points from lo-d/2 to hi+d/2 with d=(hi-lo)/(resolution-1)', grid,
-                   'np.linspace(R[0] - ((R[1] - R[0]) / (S - 1))/2, R[1] + ((R[1] - R[0]) / (S - 1))/2, N + 1)',
-                   roles={'R': ('var', rng), 'S': ('var', res), 'N': ('var', nb)}, opaque=(rng, res, nb), at=lin[0], node=lin[0])
+    # the branch read as one expression (assignments and ifs summarised symbolically): with whatever temporaries, the edges
+    # are 10** of the n+1 point grid over log10 of the limits, the lower limit replaced first when it is not positive
+    summary_ok = False
+    try:
+        env_l = summarise(body)
+        if res_var in env_l:
+            code_l = sym.Normalizer().n(env_l[res_var])
+            RP = '([min(1., R[1] / 1e5), R[1]] if R[0] <= 0 else R)'
+            L0, L1 = 'np.log10(%s[0])' % RP, 'np.log10(%s[1])' % RP
+            D = '((%s - %s) / (S - 1))' % (L1, L0)
+            spec_l = '10**np.linspace(%s - %s / 2, %s + %s / 2, N + 1)' % (L0, D, L1, D)
+            spec_l = sym.Normalizer().n(ast.parse(spec_l.replace('R', '__R__').replace('S', '__S__').replace('N', '__N__')
+                                                  .replace('__R__', rng).replace('__S__', res).replace('__N__', nb), mode='eval').body)
+            summary_ok = code_l == spec_l
+    except Unsupported:
+        summary_ok = False
+    if summary_ok:
+        fn.ob('REACH', 'a non-positive lower limit is replaced by a positive one (on a new list) before the logarithm', True, a, key='log-lower')
+        fn.ob('REACH', 'the logarithm is taken of the (replaced) limits', True, a, key='log-limits')
+        fn.ob('FORMULA', 'log edges are 10** of a uniform grid in log space', True, a, key='log-exp')
+        fn.ob('FORMULA', 'log-space grid: n+1 points from lo-d/2 to hi+d/2 with d=(hi-lo)/(resolution-1)', True, a, key='log-grid')
+    if not summary_ok:
+        # replacement of a non-positive lower limit
+        rep = [st for st in body if isinstance(st, ast.If)]
+        okr = len(rep) == 1 and sym.norm(rep[0].test) == sym.norm('%s[0] <= 0' % rng) and not rep[0].orelse \
+            and sym.norm_block(rep[0].body) == sym.norm_block(ast.parse(
+                '%s = [min(1., %s[1]/1e5), %s[1]]' % (rng, rng, rng)).body)
+        fn.ob('REACH', 'a non-positive lower limit is replaced by a positive one (on a new list) before the logarithm', okr,
+              rep[0] if rep else a, detail='' if okr else 'replacement block: %s' % (norm_stmt(rep[0]) if rep else 'missing'),
+              key='log-lower')
+        logdef = [st for st in body if isinstance(st, ast.Assign) and isinstance(st.targets[0], ast.Name)
+                  and st.targets[0].id == rng and st not in (rep[0].body if rep else [])]
+        okl = len(logdef) == 1 and sym.norm(logdef[0].value) == sym.norm('[np.log10(%s[0]), np.log10(%s[1])]' % (rng, rng)) \
+            and (not rep or logdef[0].lineno > rep[0].lineno)
+        fn.ob('REACH', 'the logarithm is taken of the (replaced) limits', okl, logdef[0] if logdef else a, key='log-limits')
+        exp = [st for st in body if isinstance(st, ast.Assign) and sym.norm(st.value) == sym.norm('10**%s' % res_var)]
+        lin = [st for st in body if isinstance(st, ast.Assign) and isinstance(st.targets[0], ast.Name)
+               and st.targets[0].id == res_var and st not in exp]
+        oke = len(exp) == 1 and len(lin) == 1 and exp[0].lineno > lin[0].lineno and a is exp[0]
+        grid = lin[0].value if lin else None
+        if not exp and len(lin) == 1 and isinstance(a.value, ast.BinOp) and isinstance(a.value.op, ast.Pow) \
+                and isinstance(a.value.left, ast.Constant) and a.value.left.value == 10 and a is lin[0]:
+            # one statement (the canonical spelling of grid-then-power under one name): edges = 10**grid
+            oke, grid = True, a.value.right
+        fn.ob('FORMULA', 'log edges are 10** of a uniform grid in log space', oke, exp[0] if exp else a, key='log-exp')
+        if lin:
+            spec_check(fn, 'FORMULA', 'log-space grid: n+1 points from lo-d/2 to hi+d/2 with d=(hi-lo)/(resolution-1)', grid,
+                       'np.linspace(R[0] - ((R[1] - R[0]) / (S - 1))/2, R[1] + ((R[1] - R[0]) / (S - 1))/2, N + 1)',
+                       roles={'R': ('var', rng), 'S': ('var', res), 'N': ('var', nb)}, opaque=(rng, res, nb), at=lin[0], node=lin[0])
     # logicle
     body = branches['logicle']
     a = last_assign(body, res_var)
